@@ -243,6 +243,23 @@ func Panics(f func()) (p bool) {
 	return false
 }
 
+// Completes runs f and reports whether it returned. Under the engine "does not return" means
+// that f blocks for ever (a lock that is never released, a channel nobody serves); natively f
+// runs in its own goroutine and is given three seconds.
+func Completes(f func()) bool {
+	done := make(chan struct{})
+	go func() {
+		defer func() { recover(); close(done) }()
+		f()
+	}()
+	select {
+	case <-done:
+		return true
+	case <-time.After(3 * time.Second):
+		return false
+	}
+}
+
 // PanicValue runs f and returns the panic message ("" if none).
 func PanicValue(f func()) (msg string) {
 	defer func() {
